@@ -138,6 +138,37 @@ def gen_mixed(rng, n):
     return out
 
 
+def gen_signed_maxmul(rng, n):
+    """max/min reductions of products with SIGNED data: real leaves, and non-negative leaves under a negation or a
+    subtraction (normalize rewrites -x to x * -1 and a - b to a + b * -1).  (max|min, mul) is declared distributive
+    although it is on non-negative data only, so the normalising / distributing passes are expected to go wrong
+    here: the family exists to keep known finding KF-maxmul-signed honest (C03), not to widen C08's claim."""
+    from lang.prog import binary, leaf, num, reduce_, unary
+    out = []
+    for _ in range(n):
+        kind = rng.choice(["real_factor", "neg_inside", "neg_between", "sub_outside"])
+        car = "real" if kind == "real_factor" else "nonneg"
+        def L(i, must=None):
+            vs = [v for v in VARS if rng.random() < 0.55 or v == must]
+            return leaf("m%d" % i, tuple(vs), (), car)
+        red = tuple(v for v in VARS if rng.random() < 0.5) or (VARS[0],)
+        a, b = L(0, red[0]), L(1)
+        mm, mm2 = rng.choice(["max", "min"]), rng.choice(["max", "min"])
+        if kind == "real_factor":
+            e = reduce_(mm, binary("mul", a, b), red)
+        elif kind == "neg_inside":
+            e = reduce_(mm, unary("neg", binary("mul", a, b)), red)
+        elif kind == "neg_between":
+            red2 = tuple(v for v in VARS if v not in red and rng.random() < 0.7)
+            e = unary("neg", reduce_(mm, binary("mul", a, b), red))
+            if red2:
+                e = reduce_(mm2, binary("add", e, L(2, red2[0])) if rng.random() < 0.3 else e, red2)
+        else:
+            e = binary("sub", num(0.5), reduce_(mm, binary("mul", a, b), red))
+        out.append(e)
+    return out
+
+
 def einsum_instances(tier):
     """funsor.einsum.einsum(...) for all equations with <= 3 (|4) operands x 3 (|4) symbols (operand = subset of symbols)"""
     syms = "abc" if tier == "quick" else "abcd"
